@@ -29,6 +29,7 @@ m={
  "wrote that slot back over later changes":("C03","D24: advancing clock: rename(\"d/e/../e\", root, \"x\") left x's '..' pointing at d; a handle from open_dir(\"d/e/..\") used after d/e was moved rewrote the '..' of the moved directory"),
  "mark the volume dirty before the first FAT":("C12","D26: one storage fault in the dirty-flag write of create_dir / create_file / remove / rename (the FAT or directory write before it had succeeded), then stats() -> Ok: the volume differs from its state before the failed call and the status byte says clean"),
  "File::truncate marks the volume dirty before":("C12","D27: truncate through a handle with the first device call failing, then the same truncate again -> Ok (or flush -> Ok): the shortened entry is written to a volume whose status byte says clean"),
+ "stored free-cluster count that is too low":("C02","D28: clean FAT32 volume whose FS-information free count is 0 (advisory, stale) with free clusters in the table: create f, write 1 byte -> panic 'attempt to subtract with overflow' at fs.rs alloc_cluster (release builds: count wraps to 0xFFFFFFFF)"),
  "truncate at offset 0 that failed":("C14","D25: write 512, flush, seek 0, truncate with one storage fault (any of its 8 device calls), write 512, flush -> Ok; the image holds size 512 and first cluster 0: the flushed data is gone after a remount"),
  "grow a directory before writing":("C03","D19: full volume, directory with 5 free slots in its last cluster: create_file/rename of a 9-slot name returned NotEnoughSpace and left the 5 long-name slots already written as orphans"),
  "twenty completely filled long-name slots":("C17","D9: 20 fully filled long-name slots returned a 260-unit name"),
